@@ -1158,3 +1158,163 @@ def cell_lookup_method(methods: dict) -> Optional[str]:
             if valued and walk_reached_from(methods, c.func.attr):
                 return c.func.attr
     return None
+
+
+# ------------------------------------------------------------------------------------------------ third wave: a method applied by a higher-order callable
+# `for x in xs: acc = self.m(acc, x)` and `functools.reduce(self.m, xs, acc)` are the same calls of m: one per element of xs, the first argument what the
+# previous call returned (the initial value at first), the second the element.  A rule that asks "which method of the class does this function hand its items
+# to / change the graph through" has to see the bound method in argument position as that call.  Only callables that apply their function argument EAGERLY,
+# once per element, are read this way (a lazy map()/accumulate() applies nothing until it is consumed: it counts when an eager consumer is wrapped round it).
+class Application:
+    """node: the call expression that performs the applications; name: the method of the class applied; over: the iterable it is applied to once per
+    element; args: the positional arguments of one application, an element of `over` being stood for by `over` itself (the rules ask of an argument
+    only whether it is caller-supplied, and a member of a caller-supplied sequence is)"""
+
+    def __init__(self, node: ast.Call, name: str, over: ast.expr, args: list[ast.expr]):
+        self.node, self.name, self.over, self.args = node, name, over, args
+
+
+_EAGER_CONSUMERS = {"list", "tuple", "set", "frozenset", "sorted", "sum", "min", "max", "dict", "deque", "collections.deque"}
+
+
+def _stdlib_names(tree: ast.AST) -> dict[str, str]:
+    """local name -> dotted stdlib name, for what the module imports of functools / itertools / collections"""
+    out: dict[str, str] = {}
+    for n in ast.walk(tree):
+        if isinstance(n, ast.Import):
+            for a in n.names:
+                if a.name in ("functools", "itertools", "collections"):
+                    out[a.asname or a.name] = a.name
+        elif isinstance(n, ast.ImportFrom) and n.module in ("functools", "itertools", "collections") and not n.level:
+            for a in n.names:
+                out[a.asname or a.name] = "%s.%s" % (n.module, a.name)
+    return out
+
+
+def _bound_method(e: ast.AST, methods: dict) -> Optional[str]:
+    e = strip_cast(e)
+    if isinstance(e, ast.Attribute) and isinstance(e.value, ast.Name) and e.value.id == "self" and e.attr in methods:
+        return e.attr
+    return None
+
+
+def applications(mod, fn: ast.AST, methods: dict) -> list[Application]:
+    """Applications, by a higher-order callable of the standard library, of a method of the class bound to self, in fn's own statements."""
+    from .core import own_nodes
+
+    names = _stdlib_names(mod.tree)
+
+    def dotted(f: ast.AST) -> Optional[str]:
+        if isinstance(f, ast.Name):
+            return names.get(f.id, f.id if f.id in ("map",) else None)
+        if isinstance(f, ast.Attribute) and isinstance(f.value, ast.Name) and f.value.id in names:
+            return "%s.%s" % (names[f.value.id], f.attr)
+        return None
+
+    out = []
+    own = list(own_nodes(fn))
+    for c in own:
+        if not isinstance(c, ast.Call) or any(isinstance(a, ast.Starred) for a in c.args):
+            continue
+        d = dotted(c.func)
+        kw = {k.arg: k.value for k in c.keywords if k.arg}
+        if d == "functools.reduce" and len(c.args) >= 2:
+            m = _bound_method(c.args[0], methods)
+            if m is not None:
+                init = c.args[2] if len(c.args) > 2 else kw.get("initial", c.args[1])
+                out.append(Application(c, m, c.args[1], [init, c.args[1]]))
+        elif d in _EAGER_CONSUMERS | {"collections.deque"} or (isinstance(c.func, ast.Name) and c.func.id in _EAGER_CONSUMERS):
+            # an eager consumer round a lazy map(self.m, xs) / itertools.accumulate(xs, self.m[, initial=..])
+            inner = c.args[0] if c.args else None
+            if isinstance(inner, ast.Call) and not any(isinstance(a, ast.Starred) for a in inner.args):
+                di = dotted(inner.func)
+                if di == "map" and len(inner.args) >= 2:
+                    m = _bound_method(inner.args[0], methods)
+                    if m is not None:
+                        out.append(Application(c, m, inner.args[1], list(inner.args[1:])))
+                elif di == "itertools.accumulate" and inner.args:
+                    ikw = {k.arg: k.value for k in inner.keywords if k.arg}
+                    fe = inner.args[1] if len(inner.args) > 1 else ikw.get("func")
+                    m = _bound_method(fe, methods) if fe is not None else None
+                    if m is not None:
+                        out.append(Application(c, m, inner.args[0], [ikw.get("initial", inner.args[0]), inner.args[0]]))
+    return out
+
+
+def method_uses(mod, fn: ast.AST, methods: dict) -> list[tuple[ast.Call, str, Optional[ast.expr], list[ast.expr]]]:
+    """Every use fn's own statements make of a method of the class through self: (call node, method, the iterable the method is applied over once per
+    element or None for a plain call, positional arguments).  A plain `self.m(a, b)` and an application by a higher-order callable alike."""
+    from .core import own_nodes
+
+    out: list[tuple[ast.Call, str, Optional[ast.expr], list[ast.expr]]] = []
+    for c in own_nodes(fn):
+        if isinstance(c, ast.Call):
+            m = _bound_method(c.func, methods)
+            if m is not None:
+                out.append((c, m, None, list(c.args)))
+    for a in applications(mod, fn, methods):
+        out.append((a.node, a.name, a.over, a.args))
+    out.sort(key=lambda t: (t[0].lineno, t[0].col_offset))
+    return out
+
+
+# ------------------------------------------------------------------------------------------------ a `for` that cannot run out of items
+def endless_for(mod, loop: ast.AST) -> bool:
+    """Is `loop` a for over an iterator of the standard library that never ends (itertools.count(..), itertools.repeat(x) without a number of times,
+    itertools.cycle of a non-empty display)?  Such a loop is a `while True` with a counter: it is left by return / raise / break only, the edge
+    "the items have run out" is never taken."""
+    if not isinstance(loop, (ast.For, ast.AsyncFor)):
+        return False
+    it = strip_cast(loop.iter)
+    if not isinstance(it, ast.Call) or any(isinstance(a, ast.Starred) for a in it.args) or any(k.arg is None for k in it.keywords):
+        return False
+    names = _stdlib_names(mod.tree)
+    f = it.func
+    d = names.get(f.id) if isinstance(f, ast.Name) else ("%s.%s" % (names[f.value.id], f.attr) if isinstance(f, ast.Attribute) and isinstance(f.value, ast.Name) and f.value.id in names else None)
+    kws = {k.arg for k in it.keywords}
+    if d == "itertools.count":
+        return True
+    if d == "itertools.repeat":
+        return len(it.args) == 1 and "times" not in kws
+    if d == "itertools.cycle":
+        return len(it.args) == 1 and isinstance(it.args[0], (ast.List, ast.Tuple, ast.Set)) and bool(it.args[0].elts) and not any(isinstance(e, ast.Starred) for e in it.args[0].elts)
+    return False
+
+
+def reachable_without_exhaustion(g: CFG, mod) -> set[int]:
+    """CFG nodes reachable from the entry when the "items have run out" edge of every endless for loop is left out (the edges out of the loop head other
+    than the one into the body and the may-raise edges) - as the CFG itself leaves out the exit of `while True`."""
+    endless = {nd.id for nd in g.nodes if nd.kind == "iter" and endless_for(mod, nd.ast)}
+    seen = {g.entry}
+    stack = [g.entry]
+    while stack:
+        n = stack.pop()
+        for x in g.succ[n]:
+            if n in endless and g.edge_label.get((n, x)) not in ("true", "exc"):
+                continue
+            if x not in seen:
+                seen.add(x)
+                stack.append(x)
+    return seen
+
+
+# ------------------------------------------------------------------------------------------------ what a return statement can return, and under which tests
+def returned_alternatives(e: ast.AST, conds: tuple = ()) -> list[tuple[ast.AST, tuple]]:
+    """`return a if t else b` is `if t: return a / else: return b`: the values a return expression can evaluate to, each with the (test, outcome)
+    pairs of the conditional expressions that select it (nested ones in order).  Casts are looked through."""
+    e = strip_cast(e)
+    if isinstance(e, ast.IfExp):
+        return returned_alternatives(e.body, conds + ((e.test, True),)) + returned_alternatives(e.orelse, conds + ((e.test, False),))
+    return [(e, conds)]
+
+
+def never_nil_at_return(g: CFG, mod, ret: ast.Return, value: ast.AST, conds: tuple) -> Optional[bool]:
+    """Is the returned `value` (a plain name) known not to be rdf:nil where `ret` returns it: `name != rdf:nil` established by the outcome of a
+    conditional expression that selects this value, or by a branch edge on every path to the return with no re-binding since (an if / guard clause /
+    else arm / loop test, either polarity, De Morgan forms).  None when the value is not a plain name (the caller decides)."""
+    if not isinstance(value, ast.Name):
+        return None
+    atom = atom_not_nil(value.id)
+    if any(edge_establishes(t, taken, atom) for t, taken in conds):
+        return True
+    return fact_on_every_path(g, g.node_of(ret, mod), value.id, atom)
